@@ -24,26 +24,43 @@ type Hop struct {
 type ChainCase struct {
 	Hops   []Hop  `json:"hops"`   // 1..3
 	Action string `json:"action"` // leafActions
-	Try    bool   `json:"try"`    // the leaf swallows the exception of its own action
+	Try    bool   `json:"try"`    // the leaf runs its action inside a TRY block (a missing flag is NOT a catchable exception in this VM: the run must fault all the same; the TRY makes nested calls go through the per-call DAO layer of call.go)
 }
 
-// biasedFlags draws one of the 16 flag sets, rich sets more often (so that deep chains reach their leaf).
-func biasedFlags(t *rapid.T, label string) int {
-	if rapid.IntRange(0, 2).Draw(t, label+"_any") == 0 {
-		return rapid.IntRange(0, 15).Draw(t, label)
-	}
-	return rapid.SampledFrom([]int{15, 15, 15, 7, 13, 5, 11, 14, 3, 9}).Draw(t, label)
-}
-
+// genChainCase draws the chain so that every verdict class is frequent: each hop requests either an arbitrary one of
+// the 16 flag sets, or what the rest of the chain needs plus arbitrary extras, or that with one needed flag removed.
 func genChainCase(t *rapid.T) ChainCase {
-	n := rapid.IntRange(1, 3).Draw(t, "len")
-	c := ChainCase{Action: rapid.SampledFrom(leafActions).Draw(t, "action"), Try: rapid.Bool().Draw(t, "try")}
+	n := 1 + uniform(t, 3, "len")
+	c := ChainCase{Action: pick(t, leafActions, "action"), Try: rapid.Bool().Draw(t, "try")}
 	for i := 0; i < n; i++ {
-		c.Hops = append(c.Hops, Hop{
-			C:     rapid.IntRange(0, 2).Draw(t, "contract"),
-			Flags: biasedFlags(t, "flags"),
-			Safe:  rapid.IntRange(0, 5).Draw(t, "safe") == 0,
-		})
+		need := needCall // what the code running at this hop must be able to do: call on
+		if i == n-1 {
+			need = needs(c.Action)
+		}
+		var f int
+		switch uniform(t, 8, "style") {
+		case 0, 1:
+			f = uniform(t, 16, "flags")
+		case 2:
+			f = fAll
+		case 3, 4: // exactly one needed flag missing somewhere below All
+			f = need | uniform(t, 16, "extra")
+			if need != 0 {
+				var bits []int
+				for b := 1; b < 16; b <<= 1 {
+					if need&b != 0 {
+						bits = append(bits, b)
+					}
+				}
+				f &^= pick(t, bits, "drop")
+			}
+		default:
+			f = need | uniform(t, 16, "extra")
+			if i < n-1 { // keep what the later hops need, so that the leaf decides
+				f |= needs(c.Action)
+			}
+		}
+		c.Hops = append(c.Hops, Hop{C: uniform(t, 3, "contract"), Flags: f, Safe: uniform(t, 6, "safe") == 0})
 	}
 	return c
 }
@@ -112,10 +129,8 @@ func (w *world) hopMethod(c ChainCase, i int) string {
 }
 
 // leafEffect reports which kind of effect of the leaf action is visible in the outcome.
-func leafEffect(action string, leaf string, o *outcome) (present bool, other []string) {
-	var st, nt []string
-	st = append(st, o.Changed...)
-	nt = append(nt, o.Notifs...)
+func leafEffect(action string, leaf string, o *outcome) (present bool) {
+	st, nt := o.Changed, o.Notifs
 	has := func(l []string, pfx string) bool {
 		return slices.ContainsFunc(l, func(s string) bool { return strings.HasPrefix(s, pfx) })
 	}
@@ -133,7 +148,7 @@ func leafEffect(action string, leaf string, o *outcome) (present bool, other []s
 	case "xfer":
 		present = has(st, "~GasToken") || has(nt, "GasToken:Transfer")
 	}
-	return present, nil
+	return present
 }
 
 func checkChainCase(c ChainCase, o *vt.Obs) error {
@@ -164,7 +179,7 @@ func checkChainCase(c ChainCase, o *vt.Obs) error {
 	where := fmt.Sprintf("chain %s (specified leaf flags %s, reached=%v)", describeChain(c), flagName(leafFlags), reached)
 
 	// 1. Behavioural clauses on everything that ran: the most any code in the chain can hold is the flags of the first hop.
-	present, _ := leafEffect(c.Action, leafName, out)
+	present := leafEffect(c.Action, leafName, out)
 	hasStorage, hasNotif := len(out.Changed) != 0, len(out.Notifs) != 0
 	hasCall := out.Invoc["P4"] > 0 || slices.Contains(out.Foreign, "P4") || out.Invoc["GasToken"] > 0
 	if out.Halt {
@@ -187,19 +202,16 @@ func checkChainCase(c ChainCase, o *vt.Obs) error {
 		if !out.Halt {
 			return fmt.Errorf("%s: flags suffice for %q but the run failed: %s", where, c.Action, out)
 		}
-		if c.Action != "nothing" && !present {
+		if needs(c.Action) != 0 && !present {
 			return fmt.Errorf("%s: flags suffice for %q, the run HALTed, but the effect is absent: %s", where, c.Action, out)
 		}
-		if out.Stack != "1" {
+		if c.Action == "flags" {
+			// the leaf reports the flags it actually holds: exactly the intersection along the chain
+			if out.Stack != fmt.Sprint(leafFlags) {
+				return fmt.Errorf("%s: the leaf holds flags %s (System.Contract.GetCallFlags)", where, out.Stack)
+			}
+		} else if out.Stack != "1" {
 			return fmt.Errorf("%s: flags suffice for %q but the leaf reported %s", where, c.Action, out.Stack)
-		}
-	case reached && c.Try:
-		// the leaf swallows the failure of its action: the run HALTs with marker 2 and without the effect
-		if !out.Halt || out.Stack != "2" {
-			return fmt.Errorf("%s: leaf flags lack %s for %q; expected the swallowed failure (marker 2), got %s", where, flagName(needs(c.Action)&^leafFlags), c.Action, out)
-		}
-		if hasStorage || hasNotif || hasCall {
-			return fmt.Errorf("%s: leaf flags lack %s for %q, yet effects appeared: %s", where, flagName(needs(c.Action)&^leafFlags), c.Action, out)
 		}
 	default:
 		if out.Halt {
@@ -224,9 +236,9 @@ func checkChainCase(c ChainCase, o *vt.Obs) error {
 	default:
 		o.Label("leaf-denied")
 	}
-	// Non-trivial: the leaf is denied only because of one flag removed somewhere along the chain (with that single flag
-	// added back to one hop the action would be allowed), or allowed while some hop requested strictly less than All.
-	if reached && !enough && c.Action != "nothing" {
+	// Non-trivial: the action is denied only because of one flag missing at one hop (with that single flag added back
+	// the whole chain is allowed), or allowed/observed through a hop that requested strictly less than All.
+	if !enough && needs(c.Action) != 0 {
 		for i := range c.Hops {
 			for bit := 1; bit < 16; bit <<= 1 {
 				if c.Hops[i].Flags&bit != 0 {
@@ -235,6 +247,18 @@ func checkChainCase(c ChainCase, o *vt.Obs) error {
 				d := ChainCase{Hops: slices.Clone(c.Hops), Action: c.Action, Try: c.Try}
 				d.Hops[i].Flags |= bit
 				if lf, r := chainSpec(d); r && lf&needs(c.Action) == needs(c.Action) {
+					// confirm by execution: the same chain with that single flag added succeeds with the effect
+					script, own := w.chainScript(d)
+					ic, err := w.newIC(trigger.Application, w.plainTx(nil, 0))
+					if err != nil {
+						return err
+					}
+					ic.VM.LoadWithFlags(script, callflag.All)
+					out2 := w.run(ic, own...)
+					o.Units(1)
+					if !out2.Halt || !leafEffect(c.Action, leafName, out2) {
+						return fmt.Errorf("chain %s: flags suffice for %q but the run failed or the effect is absent: %s", describeChain(d), c.Action, out2)
+					}
 					o.Label("denied-by-single-flag")
 					o.NonTrivial()
 					return nil
@@ -286,11 +310,11 @@ type SafeCase struct {
 
 func genSafeCase(t *rapid.T) SafeCase {
 	return SafeCase{
-		C:      rapid.IntRange(0, 2).Draw(t, "c"),
-		Action: rapid.SampledFrom(leafActions).Draw(t, "action"),
+		C:      uniform(t, 3, "c"),
+		Action: pick(t, leafActions, "action"),
 		Try:    rapid.Bool().Draw(t, "try"),
-		Flags:  rapid.SampledFrom([]int{15, 15, 15, 15, 14, 11, 10, 7, 5, 3, 2, 8, 0, 1, 4, 6, 9, 12, 13}).Draw(t, "flags"),
-		Via:    rapid.IntRange(0, 1).Draw(t, "via"),
+		Flags:  pick(t, []int{15, 15, 15, 15, 15, 15, 14, 11, 10, 7, 5, 3, 2, 8, 0, 1, 4, 6, 9, 12, 13}, "flags"),
+		Via:    uniform(t, 2, "via"),
 	}
 }
 
@@ -328,12 +352,16 @@ func checkSafeCase(c SafeCase, o *vt.Obs) error {
 	// A safe method keeps the right to read and to call (read-only): with ReadStates|AllowCall requested the call
 	// action must work and the callee must have run.
 	mutating := needs(c.Action)&(fWrite|fNotify) != 0
+	if c.Action == "flags" && out.Halt {
+		want := c.Flags & fReadOnly
+		if out.Stack != fmt.Sprint(want) {
+			return fmt.Errorf("%s: the safe method holds flags %s, expected the requested ones without WriteStates and AllowNotify (%d)", where, out.Stack, want)
+		}
+	}
 	switch {
-	case mutating && !c.Try && out.Halt:
+	case mutating && out.Halt:
 		return fmt.Errorf("%s: the mutating action did not fail inside the safe method: %s", where, out)
-	case mutating && c.Try && (!out.Halt || out.Stack != "2"):
-		return fmt.Errorf("%s: expected the swallowed failure (marker 2): %s", where, out)
-	case !mutating && c.Flags&needs(c.Action) == needs(c.Action) && (!out.Halt || out.Stack != "1"):
+	case !mutating && c.Flags&needs(c.Action) == needs(c.Action) && (!out.Halt || (out.Stack != "1" && c.Action != "flags")):
 		return fmt.Errorf("%s: a read-only action within the requested flags failed: %s", where, out)
 	}
 	o.Label("action/" + c.Action)
